@@ -82,6 +82,11 @@ def build_fields(case, G):
             U = U + gz * zu[None]
             V = V + gz * zv[None]
             lin["gz"] = gz
+        # keep the field inside what the packed storages can hold without clipping (u: 3.2, v: 2.4 m/s), otherwise
+        # the stored field is no longer linear and the closed form below does not describe it
+        fct = min(1.0, 2.8 / max(float(np.abs(U).max()), 1e-9), 2.2 / max(float(np.abs(V).max()), 1e-9))
+        U, V = U * fct, V * fct
+        lin = dict(u=tuple(fct * t for t in lin["u"]), v=tuple(fct * t for t in lin["v"]), gz=fct * lin["gz"])
         U[1] += 0.3  # second frame differs (must not leak into step 0)
     extra = {nm: rng.uniform(-5, 30, (2, N, jm, im)) for nm in case["scalars"]}
     return U, V, extra, lin
